@@ -83,3 +83,13 @@ chk('C03', 'exploration',
     'All 12 problem x domain combinations of the driver x both switch values x every leaf-set-distinct mesh state of the BFS graph from the driver\'s initial mesh (depth 0/1 quick, 1/2 thorough) x every leaf: matrix, load vector, solve and residual are produced by the driver\'s own statements (executed from example.py\'s AST), and int_E r, int_E |r| by an independent graded tensor rule resolving every mesh line; criterion |int_E r| <= 5e-5 int_E |r| + 1e-12 as stated.',
     'Trusted: the graded rule (12 levels in time, 4 in space; converged per DESIGN measurements); process pool replaced by a serial stand-in (schedules are C17).',
     'exhaustive enumeration of BFS mesh states x problem configurations with an independent quadrature oracle', 'DESIGN.md 4/C03', 'driver')
+ENGINES += [{'name': 'E3-virtual-pool', 'path': 'mc/vpool.py', 'serves_properties': ['C17', 'C04', 'C20'],
+             'kind_free_text': 'fork-faithful virtual process pool with explorer-chosen chunk->worker schedules (set partitions), completion orders for unordered APIs; cache fault injector mc/faultfs.py'}]
+chk('C17', 'fault_enumeration',
+    'Paths: inline / serial / pool on both sides of the N*M=100 threshold vs entry-wise single evaluations on fresh operators, bitwise. Schedules: ALL set partitions of the chunk sequence into <= cpu blocks for four matrix shapes x cpu 1..16 (bilform_matrix), all partitions of 3..6 elements (linform_vector), of the two estimator maps (estimate_sobolev) and estimate_weighted_l2, on a fork-faithful virtual pool. Crash points: every prefix length of the stored .npy (matrix and vector) and garbage files the reader rejects. Histories: explicit-state search to depth 3 (quick) / 4 (thorough) over {assemble A, B, other curve, serial/pool, truncate, delete, read-only} in lock-step with a dictionary model of the cache directory.',
+    'Not intercepted: the OS scheduler, fork failures, worker death, concurrent writers, well-formed cache files with foreign content (nothing short of a checksum could notice). Read-only injected at open() because the harness runs as root.',
+    'exhaustive enumeration of worker schedules, crash points and cache-directory histories on the real assembly code under a controlled scheduler / fault injector', 'DESIGN.md 2.3, 4/C17', 'E3-virtual-pool')
+chk('C20', 'exploration',
+    'Four closed curves x every leaf-set-distinct BFS state (depth 1 quick / 2-3 thorough) x problems (with and without initial data) x densities {0, e_i, e_i+e_j, Galerkin}: both estimators compared (1e-9) with an independent computation on a second real mesh refined by real bisection, assembled from single bilform/linform calls, psi built from geometry; vanishing clause, non-negativity, Prolongate == geometric containment on every nested pair, serial vs pool bits on virtual-pool schedules and two genuine fork pools.',
+    'The reference shares the kernel evaluations (bilform/linform) with the code: C20 decides the algebra, ordering, signs and sharing of the estimators; quadrature accuracy is C01/C08.',
+    'exhaustive enumeration of BFS mesh states x density basis against an independent reference computation', 'DESIGN.md 4/C20', 'E1-mesh-explorer')
